@@ -95,7 +95,10 @@ func ruleValidateSaveNotify(c *core.Ctx, recv, name string) {
 		return
 	}
 	sin, nin := saveCall.(ssa.Instruction), notify.(ssa.Instruction)
-	isVerdict := func(v ssa.Value) bool { cr, _ := core.CallResult(v); return cr != nil && ssa.CallInstruction(cr) == validate }
+	isVerdict := func(v ssa.Value) bool {
+		cr, _ := core.CallResult(v)
+		return cr != nil && ssa.CallInstruction(cr) == validate
+	}
 	accepted := core.Eq(isVerdict, core.IsNilConst)
 	c.Check(core.Guarded(fn, sin, accepted), rule, key+"/save-guarded", saveCall.Pos(), "saved only across validator == nil",
 		"the new value is saved although the validator rejected it (or before it was asked): a rejected write changes the property")
@@ -147,7 +150,15 @@ func ruleSaveStores(c *core.Ctx) {
 		}
 	}
 	c.Check(ok, rule, "bus.objectImpl.saveProperty/store", save.Pos(), "properties[name] = newValue on every success path", "saveProperty does not store exactly the given value under the given name on every success path")
-	// Property: success returns the looked-up value, guarded by ok
+	// Property: success returns the looked-up value, guarded by ok (the lookup may
+	// live in a private accessor whose results Property hands back unchanged)
+	for i := 0; i < 3; i++ {
+		h := forwardTarget(get)
+		if h == nil {
+			break
+		}
+		get = h
+	}
 	lks := mapLookups(get, props)
 	good := false
 	for _, lk := range lks {
@@ -273,4 +284,36 @@ func ruleTypedProperties(c *core.Ctx) {
 	if n == 0 {
 		c.Undecided(rule, "generated property code", token.NoPos, "no generated onPropertyChange / Get<Prop> found")
 	}
+}
+
+// forwardTarget: every return of fn that is not a constant failure hands back,
+// unchanged and in order, the results of one call to a function of the
+// repository (return o.load(name)): that function; nil otherwise.
+func forwardTarget(fn *ssa.Function) *ssa.Function {
+	var target *ssa.Function
+	for _, r := range core.Returns(fn) {
+		if len(r.Results) == 0 {
+			return nil
+		}
+		if core.IsErrorType(r.Results[len(r.Results)-1].Type()) && errorReturnConst(r) {
+			continue
+		}
+		var call *ssa.Call
+		for i := range r.Results {
+			cr, idx := core.CallResult(core.Canon(core.RetVal(r, i)))
+			if cr == nil || (call != nil && cr != call) {
+				return nil
+			}
+			if idx != i && !(len(r.Results) == 1 && idx <= 0) {
+				return nil
+			}
+			call = cr
+		}
+		h := call.Call.StaticCallee()
+		if h == nil || !inRepo(h) || len(h.Blocks) == 0 || (target != nil && target != h) {
+			return nil
+		}
+		target = h
+	}
+	return target
 }
